@@ -31,6 +31,7 @@ pub mod c11;
 pub mod c13;
 pub mod c12;
 pub mod c09;
+pub mod c16;
 pub mod c17;
 
 use report::{Args, Report};
@@ -51,6 +52,7 @@ pub fn dispatch(cmd: &str, args: &Args, rep: &mut Report) -> bool {
         "C13" => c13::run(args, rep),
         "C12" => c12::run(args, rep),
         "C09" => c09::run(args, rep),
+        "C16" => c16::run(args, rep),
         "C17" => c17::run(args, rep),
         "try" => trycmd(args),
         "probe" => probecmd(args),
